@@ -17,18 +17,23 @@ THEOREMS = [
     "Mro.mro_monotone", "Mro.duplicate_bases_reject", "Mro.reject_reports", "Mro.accept_no_report",
     "Mro.find_eq_lookup", "Mro.docsource_eq_getdoc", "Mro.report_iff_python_rejects",
     "Mro.pd_rejects_iff_cpython_rejects", "Mro.getdoc_is_not_the_mro_walk",
+    "Mro.second_pass_canonical", "Mro.second_pass_trigger_independent", "Mro.second_pass_wrong_scope_counterexample",
 ]
 RULE = ("exhaustive: every hierarchy of n<=5 classes in which class i takes any ordered duplicate-free list of bases "
         "among classes 1..i-1 (10573 hierarchies, 10400 at n=5), plus every hierarchy of n<=4 classes with base lists of "
         "length <=3 containing a repeated base; each run through the real pydoctor.mro.mro, through type(name, bases, {}) "
         "and through both Lean models; random lists of lists through the real mro._merge; generated source trees of 3-12 "
         "classes over 1-3 modules (subscripted generic bases, member m with/without docstring at random levels) through "
-        "the real System and through CPython executing the same source. Non-trivial = at least one class has two or "
+        "the real System and through CPython executing the same source; and the same over packages of 2-4 modules that "
+        "import each other (only layouts CPython's import system accepts), bases named through aliases bound only in the "
+        "declaring module, every processing order of the modules. Non-trivial = at least one class has two or "
         "more bases.")
 ASSUMPTIONS = [
     "class objects and base-name strings are truthy (`if head and ...` in mro._merge only skips the heads of empty lists); "
     "Documentable defines neither __bool__ nor __len__",
-    "hierarchies are acyclic (bases are defined before the class, as Python requires); compute_mro's cycle detection is not modelled",
+    "hierarchies are acyclic (bases are defined before the class, as Python requires); compute_mro's cycle detection and "
+    "the path check of init_finalbaseobjects are not modelled; the second pass of base resolution is modelled (Mro.secondPass) "
+    "over the data the AST pass left behind and tied to the real _finalbaseobjects; the linearisation models take the resolved hierarchy",
     "generated classes are plain: object root, no metaclass, no __slots__, no builtin bases, so type() can only fail for MRO "
     "reasons or duplicate bases; typing.Generic[T] appears only as the last base (where typing's __mro_entries__ keeps it)",
     "the run-time docstring reference is attribute lookup along __mro__ (first later class defining the member with a "
@@ -36,6 +41,12 @@ ASSUMPTIONS = [
     "a class whose ancestor Python refused to create does not exist at run time; the oracle says nothing about it "
     "(pydoctor reports it too; both models agree on `reject`)",
 ]
+PARTIAL = {
+    "compute_mro.init_finalbaseobjects": "modelled as Mro.secondPass over the recorded AST-pass data (raw base names, "
+                                         "_initialbaseobjects, resolveName table) and proved trigger independent; that the names "
+                                         "denote the classes Python binds is checked by the direct oracle only (import cycles, all "
+                                         "processing orders); the path-based cycle check is not modelled",
+}
 EXPLANATION = ("Theorems over the models of mro.py/model.py and of typeobject.c hold for every acyclic hierarchy; two "
                "correspondences tie the pydoctor model to pydoctor and the CPython model to CPython on the exhaustive "
                "space the property names, a third compares pydoctor with CPython directly.")
@@ -233,8 +244,9 @@ def project_tokens(p) -> Tuple[str, str, str]:
     return (ltoken(h), ",".join(map(str, p["own"])) or "-", ",".join(map(str, p["doc"])) or "-")
 
 
-def pd_full(p) -> Tuple[Dict[int, Dict[str, Any]], Optional[str]]:
-    """the real pydoctor on the source text"""
+def pd_full(p, order: Optional[Sequence[str]] = None) -> Tuple[Dict[int, Dict[str, Any]], Optional[str]]:
+    """the real pydoctor on the source text; `order` = the order in which System.process meets the modules
+    (system.unprocessed_modules is permuted before buildModules; a package stays before its modules)"""
     from pydoctor import model
     from pydoctor.templatewriter import util
     get_docstring = getattr(model, "get_docstring", None)
@@ -250,8 +262,11 @@ def pd_full(p) -> Tuple[Dict[int, Dict[str, Any]], Optional[str]]:
     try:
         system = model.System()
         builder = system.systemBuilder(system)
-        for name in p["order"]:
-            builder.addModuleString(p["modules"][name], name)
+        pkg = p.get("package")
+        if pkg:
+            builder.addModuleString("", pkg, is_package=True)
+        for name in (order or p["order"]):
+            builder.addModuleString(p["modules"][name], name, parent_name=pkg)
         builder.buildModules()
     except Exception as e:
         return {}, "Crash:" + type(e).__name__ + ":" + str(e)[:80]
@@ -263,6 +278,32 @@ def pd_full(p) -> Tuple[Dict[int, Dict[str, Any]], Optional[str]]:
             return GENERIC if o == "typing.Generic" else -1
         return int(o.name[1:])
     res: Dict[int, Dict[str, Any]] = {}
+    # what compute_mro's second pass (init_finalbaseobjects) started from and what it left behind
+    allcls = list(system.objectsOfType(model.Class))
+    cidx = {o: i for i, o in enumerate(allcls)}
+    scopes = list(dict.fromkeys(o.parent for o in allcls))
+    names: Dict[str, int] = {}
+    for o in allcls:
+        for nm, _ in o.rawbases:
+            names.setdefault(nm, len(names))
+    triples = []
+    for si, sc in enumerate(scopes):
+        for nm, ni in names.items():
+            r = sc.resolveName(nm)
+            if isinstance(r, model.Class) and r in cidx:
+                triples.append("%d,%d,%d" % (si, ni, cidx[r]))
+
+    def cell(b) -> str:
+        return "0" if b is None or b not in cidx else str(cidx[b] + 1)
+    res[-1] = {"second": (
+        "mro second %s %s %s %s %s" % (
+            ",".join(str(scopes.index(o.parent)) for o in allcls) or "-",
+            ";".join(",".join(str(names[nm]) for nm, _ in o.rawbases) or "-" for o in allcls) or "-",
+            ";".join(",".join(cell(b) for b in o._initialbaseobjects) or "-" for o in allcls) or "-",
+            ";".join(triples) or "-",
+            ",".join(str(i) for i in range(len(allcls))) or "-"),
+        "|".join("N" if o._finalbaseobjects is None else (",".join(cell(b) for b in o._finalbaseobjects) or "-")
+                 for o in allcls))}
     by_name = {o.name: o for o in system.objectsOfType(model.Class)}
     for cs in p["bases"]:
         c = int(cs)
@@ -282,6 +323,7 @@ def pd_full(p) -> Tuple[Dict[int, Dict[str, Any]], Optional[str]]:
             "find": ident(found.parent) if found is not None else None,
             "docsrc": src,
             "documented": o.fullName() in system.allobjects and o.isVisible,
+            "late": any(b is None for b in o._initialbaseobjects),   # a base only resolved by compute_mro's second pass
             # the class page's "inherited from" tables: templatewriter.util.inherited_members
             "inherited": [ident(x.parent) for x in util.inherited_members(o) if x.name == "m"],
         }
@@ -314,11 +356,23 @@ def py_full(p) -> Dict[int, Dict[str, Any]]:
                 except (NameError, ImportError, AttributeError):
                     if isinstance(st, ast.ClassDef):
                         status[int(st.name[1:])] = "ancestor"
+        return _py_results(p, mods, status)
+    finally:
+        for n in names:
+            if saved[n] is None:
+                sys.modules.pop(n, None)
+            else:
+                sys.modules[n] = saved[n]
+
+
+def _py_results(p, mods, status) -> Dict[int, Dict[str, Any]]:
+    """what CPython made of the classes (must run while the modules are still in sys.modules: inspect.getdoc)"""
+    if True:
         import typing
         classes: Dict[int, type] = {}
-        for n in names:
-            for k, v in mods[n].__dict__.items():
-                if isinstance(v, type) and v.__module__ == n and k == v.__name__:
+        for n, mod in mods.items():
+            for k, v in mod.__dict__.items():
+                if isinstance(v, type) and v.__module__ == mod.__name__ and k == v.__name__ and k[0] == "C":
                     classes[int(k[1:])] = v
         ident = {v: k for k, v in classes.items()}
         ident[object] = 0
@@ -342,12 +396,155 @@ def py_full(p) -> Dict[int, Dict[str, Any]]:
             res[c] = {"status": "ok", "mro": [ident[k] for k in t.__mro__],
                       "find": ident[owner] if owner is not None else None, "docsrc": src, "getdoc": getdoc}
         return res
-    finally:
-        for n in names:
-            if saved[n] is None:
-                sys.modules.pop(n, None)
+
+
+# ------------------------------------------------------------------ full path, modules that import each other
+
+PKG = "c05pkg"
+
+
+def gen_cyclic(rng, nclasses: int, h=None, spread: bool = False) -> Dict[str, Any]:
+    """like gen_project, but the classes are dealt to the modules of a package at random (not in definition
+    order), the modules import each other at their top (`from pkg import mod` / `import pkg.mod`) and a base from
+    another module is reached through a name bound only in the declaring module (`from pkg.mod import C as Base_c`
+    written just before the class that needs it, `C`, `mod.C` or `pkg.mod.C`)."""
+    first = 2
+    if h is None:
+        h = random_hierarchy(rng, nclasses, first)
+    else:
+        h = [tuple(j + 1 for j in b) for b in h]
+    ids = list(range(first, first + nclasses))
+    if spread:
+        # one class per module (module numbers shuffled), every module imports the modules of its direct subclasses
+        # at its top: whichever module pydoctor starts with, it tends to meet a subclass before its base
+        nmod = nclasses
+        nums = rng.sample(range(nmod), nmod)
+        modof = {c: nums[i] for i, c in enumerate(ids)}
+    else:
+        nmod = rng.randint(2, 4)
+        modof = {c: rng.randrange(nmod) for c in ids}
+    generic = {c: rng.random() < 0.2 for c in ids}
+    own = {c: rng.random() < 0.6 for c in ids}
+    doc = {c: own[c] and rng.random() < 0.5 for c in ids}
+    tops: Dict[int, List[str]] = {m: [] for m in range(nmod)}
+    body: Dict[int, List[str]] = {m: [] for m in range(nmod)}
+    modimp: Dict[int, Dict[int, str]] = {m: {} for m in range(nmod)}     # module -> other module -> spelling of it
+    submods = {m: set() for m in range(nmod)}
+    for c, b in zip(ids, h):
+        for j in b:
+            submods[modof[j]].add(modof[c])
+    for m in range(nmod):
+        for o in range(nmod):
+            if o != m and rng.random() < ((0.85 if o in submods[m] else 0.15) if spread else 0.5):
+                if rng.random() < 0.7:
+                    tops[m].append("from %s import m%d\n" % (PKG, o))
+                    modimp[m][o] = "m%d" % o
+                else:
+                    tops[m].append("import %s.m%d\n" % (PKG, o))
+                    modimp[m][o] = "%s.m%d" % (PKG, o)
+    imported: Dict[int, Dict[int, str]] = {m: {} for m in range(nmod)}
+    bases: Dict[int, List[int]] = {}
+    for c, b in zip(ids, h):
+        m = modof[c]
+        exprs = []
+        for j in b:
+            if modof[j] == m:
+                name = "C%d" % j
+            elif j in imported[m]:
+                name = imported[m][j]
             else:
-                sys.modules[n] = saved[n]
+                style = rng.choice([1, 1, 1, 2, 0, 3]) if spread else rng.randrange(4)
+                if style == 3 and modof[j] in modimp[m]:
+                    name = "%s.C%d" % (modimp[m][modof[j]], j)      # attribute of the module imported at the top
+                elif style == 0:
+                    body[m].append("from %s.m%d import C%d\n" % (PKG, modof[j], j))
+                    name = "C%d" % j
+                else:
+                    body[m].append("from %s.m%d import C%d as Base_%d\n" % (PKG, modof[j], j, j))
+                    name = "Base_%d" % j
+                imported[m][j] = name
+            if generic[j] and rng.random() < 0.5:
+                name += rng.choice(["[T]", "[int]"])
+            exprs.append(name)
+        blist = list(b)
+        if generic[c]:
+            exprs.append("Generic[T]")
+            blist.append(GENERIC)
+        bases[c] = blist
+        head = "class C%d%s:\n" % (c, "(%s)" % ", ".join(exprs) if exprs else "")
+        if own[c]:
+            text = "    def m(self):\n        %s\n" % ("'''doc of C%d'''" % c if doc[c] else "pass")
+        else:
+            text = "    pass\n"
+        body[m].append(head + text)
+    mods = {"m%d" % m: "".join(tops[m]) + "from typing import Generic, TypeVar\nT = TypeVar('T')\n" + "".join(body[m])
+            for m in range(nmod)}
+    return {"n": nclasses, "package": PKG, "bases": {str(c): bases[c] for c in ids}, "modules": mods,
+            "own": [c for c in ids if own[c]], "doc": [c for c in ids if doc[c]], "order": sorted(mods)}
+
+
+def py_cyclic(p, rng) -> Optional[Tuple[Dict[int, Dict[str, Any]], List[str]]]:
+    """CPython's own import system on the package (sources served by a meta-path finder).  Tries module orders as
+    entry points until every module imports; None = Python cannot import this layout.  A class statement Python
+    refuses (TypeError) is recorded and execution goes on, anything else aborts the import."""
+    import importlib
+    import importlib.abc
+    import importlib.util
+    pkg = p["package"]
+    sources = {pkg: ""}
+    sources.update({"%s.%s" % (pkg, n): src for n, src in p["modules"].items()})
+    status: Dict[int, str] = {}
+
+    class Loader(importlib.abc.Loader):
+        def __init__(self, name):
+            self.name = name
+
+        def create_module(self, spec):
+            return None
+
+        def exec_module(self, module):
+            for st in ast.parse(sources[self.name]).body:
+                code = compile(ast.Module(body=[st], type_ignores=[]), self.name, "exec")
+                try:
+                    exec(code, module.__dict__)
+                    if isinstance(st, ast.ClassDef):
+                        status[int(st.name[1:])] = "ok"
+                except TypeError as e:
+                    if not isinstance(st, ast.ClassDef):
+                        raise
+                    t = str(e)
+                    status[int(st.name[1:])] = ("duplicate" if "duplicate base" in t else "mro" if "MRO" in t
+                                                else "other:" + t[:60])
+
+    class Finder(importlib.abc.MetaPathFinder):
+        def find_spec(self, fullname, path, target=None):
+            if fullname in sources:
+                return importlib.util.spec_from_loader(fullname, Loader(fullname), is_package=(fullname == pkg))
+            return None
+
+    def purge():
+        for k in [k for k in sys.modules if k == pkg or k.startswith(pkg + ".")]:
+            del sys.modules[k]
+    names = sorted(p["modules"])
+    orders = list(itertools.permutations(names))
+    rng.shuffle(orders)
+    finder = Finder()
+    sys.meta_path.insert(0, finder)
+    try:
+        for od in orders[:24]:
+            purge()
+            status.clear()
+            try:
+                for n in od:
+                    importlib.import_module("%s.%s" % (pkg, n))
+            except Exception:
+                continue
+            mods = {n: sys.modules["%s.%s" % (pkg, n)] for n in names}
+            return _py_results(p, mods, dict(status)), list(od)
+        return None
+    finally:
+        purge()
+        sys.meta_path.remove(finder)
 
 
 def opt(x) -> str:
@@ -485,6 +682,7 @@ def run(ctx: Ctx) -> None:
     # ---- full path
     nfull = 300 if ctx.quick else 6000
     freq, fout, greq, gout, fpay = [], [], [], [], []
+    sreq, sout, spay = [], [], []      # compute_mro's second pass
     projects = []
     if not ctx.quick:     # thorough: the whole exhaustive space once more, as source text through the real System
         for n in range(1, 6):
@@ -499,6 +697,9 @@ def run(ctx: Ctx) -> None:
             ctx.fail("crash:" + crash.split(":")[1], {"project": p}, crash)
             continue
         py = py_full(p)
+        sreq.append(pd[-1]["second"][0])
+        sout.append(pd[-1]["second"][1])
+        spay.append({"project": p})
         h, own, doc = project_tokens(p)
         a, b = full_lines(p, pd, py)
         freq.append("mro full %s %d %s %s" % (h, GENERIC, own, doc))
@@ -516,6 +717,53 @@ def run(ctx: Ctx) -> None:
         full_oracle(ctx, p, pd, py, "full")
     ctx.compare("System~Mro(full path)", freq, fout, fpay)
     ctx.compare("exec~PyMro(full path)", greq, gout, fpay)
+
+    # ---- full path, modules importing each other (legal Python: CPython's import system decides), bases named
+    #      through names bound only in the declaring module, every order in which pydoctor can meet the modules
+    cprojects: List[Tuple[Dict[str, Any], int]] = []
+    if not ctx.quick:
+        for n in range(2, 6):
+            for h in hierarchies(n):
+                cprojects.append((gen_cyclic(ctx.rng, n, h=h, spread=(n <= 4 and ctx.rng.random() < 0.5)), 2 if n == 5 else 6))
+    for _ in range(150 if ctx.quick else 1500):
+        cprojects.append((gen_cyclic(ctx.rng, ctx.rng.randint(2, 8)), 6 if ctx.quick else 24))
+    for _ in range(120 if ctx.quick else 1500):
+        cprojects.append((gen_cyclic(ctx.rng, ctx.rng.randint(3, 4), spread=True), 8 if ctx.quick else 24))
+    creq, cout, cpay = [], [], []
+    for p, maxorders in cprojects:
+        r = py_cyclic(p, ctx.rng)
+        if r is None:
+            ctx.count("cyclic:python-cannot-import(skipped)")
+            continue
+        py, entry = r
+        p["entry"] = entry
+        ctx.count("cyclic:projects")
+        ctx.count("cyclic:modules=%d" % len(p["modules"]))
+        orders = list(itertools.permutations(sorted(p["modules"])))
+        ctx.rng.shuffle(orders)
+        h, own, doc = project_tokens(p)
+        nontriv = any(len(b_) >= 2 for b_ in p["bases"].values())
+        for od in orders[:maxorders]:
+            q = dict(p, order=list(od))
+            pd, crash = pd_full(q, od)
+            if crash:
+                ctx.fail("crash:" + crash.split(":")[1], {"project": q}, crash)
+                continue
+            sreq.append(pd[-1]["second"][0])
+            sout.append(pd[-1]["second"][1])
+            spay.append({"project": q})
+            a, _b = full_lines(q, pd, py)
+            creq.append("mro full %s %d %s %s" % (h, GENERIC, own, doc))
+            cout.append(a)
+            cpay.append({"project": q})
+            ctx.case("cyclic " + h + own + doc + ",".join(od) + repr(sorted(p["modules"].items())), nontriv,
+                     {"modules": p["modules"], "processing_order": list(od), "cpython_entry": entry, "pydoctor": a}
+                     if nontriv and ctx.dist.get("cyclic:orders", 0) < 1 else None)
+            ctx.count("cyclic:orders")
+            ctx.count("cyclic:classes-with-a-base-resolved-only-in-the-second-pass", sum(1 for r_ in pd.values() if r_.get("late")))
+            full_oracle(ctx, q, pd, py, "full")
+    ctx.compare("System~Mro(import cycles, all orders)", creq, cout, cpay)
+    ctx.compare("init_finalbaseobjects~Mro.secondPass", sreq, sout, spay)
 
     # ---- probe: Generic[T] at any position among the bases (typing drops it when a later base is subscripted);
     #      outside the Lean models, direct oracle only
@@ -561,12 +809,22 @@ def replay(ctx: Ctx, obj) -> int:
             print("# ---- %s.py\n%s" % (n, s))
         import contextlib
         import io
+        if p.get("package"):
+            print("# processing order:", p["order"], " CPython entry order:", p.get("entry"))
         with contextlib.redirect_stdout(io.StringIO()):
-            pd, crash = pd_full(p)
+            pd, crash = pd_full(p, p["order"] if p.get("package") else None)
         if crash:
             print("pydoctor :", crash)
             return 1
-        py = py_full(p)
+        if p.get("package"):
+            import random
+            r = py_cyclic(p, random.Random(0))
+            if r is None:
+                print("cpython  : cannot import this layout")
+                return 0
+            py = r[0]
+        else:
+            py = py_full(p)
         h, own, doc = project_tokens(p)
         a, b = full_lines(p, pd, py)
         print("pydoctor :", a)
